@@ -459,7 +459,7 @@ theorem inq_retrMoreJob (j : Job) (newc : Nat) : (retrMoreJob j newc).inq = j.in
   unfold retrMoreJob Job.inq
   cases hu : j.ub with
   | none => simp
-  | some f => dsimp only; split <;> simp
+  | some f => dsimp only; split <;> trace_state
 
 theorem master_not_inq {c : Cfg} {g : Nat} {j : Job} (h : jobOK c g j) (hm : j.master = true) :
     j.inq = false := by
